@@ -914,6 +914,22 @@ def subst(x: Rat, mapping: Dict[int, Rat], _cache=None) -> Rat:
     keys = set(mapping)
     bound_names = [(("[%s]" % T.get(i).name), i) for i in mapping if T.get(i).kind == "sym" and "bound" in T.get(i).flags]
 
+    _touch = {}
+
+    def touched(a: Atom) -> bool:
+        """a (or something inside its arguments) is one of the replaced atoms or a path-named element indexed by one"""
+        r = _touch.get(a.id)
+        if r is None:
+            r = bool(a.deps & keys)
+            if not r and bound_names:
+                for j in a.deps:
+                    d = T.get(j)
+                    if d.kind == "sym" and "[#" in d.name and any(bn in d.name for bn, _ in bound_names):
+                        r = True
+                        break
+            _touch[a.id] = r
+        return r
+
     def atom_image(i: int) -> Rat:
         if i in _cache:
             return _cache[i]
@@ -926,7 +942,7 @@ def subst(x: Rat, mapping: Dict[int, Rat], _cache=None) -> Rat:
             for bn, bi in bound_names:
                 n = n.replace(bn, "[%s]" % mapping[bi])
             r = Rat.atom(T.sym(n, a.flags - {"bound"}, a.meta))
-        elif a.kind == "sym" or not (a.deps & keys):
+        elif a.kind == "sym" or not touched(a):
             r = Rat.atom(a)
         else:
             r = rebuild_atom(a, [map_key(k, lambda v: subst(v, mapping, _cache)) for k in a.args])
@@ -938,8 +954,7 @@ def subst(x: Rat, mapping: Dict[int, Rat], _cache=None) -> Rat:
         # group: most monomials are untouched
         untouched = {}
         for m, c in p.t.items():
-            if all((T.get(i).deps.isdisjoint(keys)) and not (bound_names and T.get(i).kind == "sym" and "[#" in T.get(i).name)
-                   for i, _ in m):
+            if all(not touched(T.get(i)) for i, _ in m):
                 untouched[m] = c
                 continue
             term = Rat.const(c)
@@ -950,7 +965,7 @@ def subst(x: Rat, mapping: Dict[int, Rat], _cache=None) -> Rat:
             acc = acc + Rat(Poly(untouched))
         return acc
 
-    if x.deps().isdisjoint(keys) and not (bound_names and any("[#" in T.get(i).name for i in x.atom_ids() if T.get(i).kind == "sym")):
+    if x.deps().isdisjoint(keys) and not (bound_names and any(touched(T.get(i)) for i in x.atom_ids())):
         return x
     r = poly_image(x.num)
     for i, e in x.dm:
@@ -1134,3 +1149,17 @@ def rename_syms(x: Rat, fn) -> Rat:
         return None
 
     return rewrite(x, atom_fn, key_fn)
+
+
+def mentions(x: "Rat", a: Atom) -> bool:
+    """x depends on the (bound) atom a: as an argument somewhere inside, or inside the path of a path-named symbol
+    (data.data[#b2].x depends on #b2)."""
+    deps = x.deps()
+    if a.id in deps:
+        return True
+    tag = "[%s]" % a.name
+    for i in deps:
+        d = T.get(i)
+        if d.kind == "sym" and tag in d.name:
+            return True
+    return False
